@@ -205,10 +205,11 @@ class LazyInit(Strategy):
 
     name = "lazyinit"
 
-    def __init__(self, q: float, frac: float, sites):
+    def __init__(self, q: float, frac: float, sites, at=None):
         self.q = q
         self.frac = frac
         self.all_sites = sites
+        self.at = at  # (absolute file, line): only the sites around that line are enabled
         self.sites = frozenset()
         self.parked = set()
 
@@ -217,7 +218,11 @@ class LazyInit(Strategy):
 
     def start(self, sim):
         ordered = sorted(self.all_sites)
-        self.sites = frozenset(x for x in ordered if sim.rng.random() < self.frac)
+        if self.at is not None:
+            f, ln = self.at
+            self.sites = frozenset(x for x in ordered if x[0] == f and abs(x[1] - ln) <= 6)
+        else:
+            self.sites = frozenset(x for x in ordered if sim.rng.random() < self.frac)
         self.parked = set()
 
     def _others(self, sim):
@@ -307,7 +312,13 @@ def make_strategy(spec: Sequence) -> Strategy:
             from dst import boot
 
             _SITES = _sites.as_set(_sites.scan(boot.apischema_dir()))
-        return LazyInit(spec[1], spec[2], _SITES)
+        at = None
+        if len(spec) > 3 and spec[2] == "at":
+            from dst import boot
+
+            f, ln = spec[3].rsplit(":", 1)
+            at = (boot.apischema_dir() + f, int(ln))
+        return LazyInit(spec[1], spec[2] if at is None else 1.0, _SITES, at)
     if kind == "nopreempt":
         return NoPreempt()
     if kind == "scripted":
@@ -345,7 +356,8 @@ class Sim:
         self.switches: List[list] = []
         self.active = False
         self.idents: Dict[int, SimThread] = {}
-        self.outcome = None  # None | "deadlock" | "step-cap"
+        self.outcome = None  # None | "deadlock" | "step-cap" | "harness-error"
+        self.harness_error = None
         self.deadlock_info = None
         self._main_gate = _alloc()
         self._main_gate.acquire()
@@ -393,19 +405,36 @@ class Sim:
         r = self._traced(frame.f_code)
         if not r:
             return None
-        if r == 2:
-            frame.f_trace_opcodes = True
-        self._probe_enter(frame)
-        self._yield(frame, "call")
+        try:
+            if r == 2:
+                frame.f_trace_opcodes = True
+            self._probe_enter(frame)
+            self._yield(frame, "call")
+        except SimAbort:
+            raise
+        except BaseException as e:  # a bug of the harness must not look like a bug of the tree
+            self._harness_failure(e)
         return self._local_trace
 
     def _local_trace(self, frame, event, arg):
-        if event == "line" or event == "opcode":
-            self._yield(frame, event)
-        elif event == "return":
-            self._probe_exit(frame)
-            self._yield(frame, event)
+        try:
+            if event == "line" or event == "opcode":
+                self._yield(frame, event)
+            elif event == "return":
+                self._probe_exit(frame)
+                self._yield(frame, event)
+        except SimAbort:
+            raise
+        except BaseException as e:
+            self._harness_failure(e)
         return self._local_trace
+
+    def _harness_failure(self, e):
+        import traceback
+
+        self.harness_error = "".join(traceback.format_exception(type(e), e, e.__traceback__))[-1500:]
+        self.outcome = "harness-error"
+        raise SimAbort()
 
     def _probe_enter(self, frame):
         if not self.probe_sites:
@@ -454,7 +483,7 @@ class Sim:
                     "p",
                     cur.idx,
                     target.idx,
-                    "%s:%d:%s" % (code.co_filename.rsplit("/", 1)[-1], frame.f_lineno, code.co_name),
+                    "%s:%s:%s" % (code.co_filename.rsplit("/", 1)[-1], frame.f_lineno, code.co_name),
                 ]
             )
             self._handoff(cur, target)
@@ -571,6 +600,7 @@ class Sim:
             "conflict": "%016x" % (self.conflict_h & 0xFFFFFFFFFFFFFFFF),
             "switches": self.switches,
             "outcome": self.outcome,
+            "harness_error": self.harness_error,
             "deadlock": self.deadlock_info,
             "lock_contention": self.lock_contention,
             "lock_acquires": self.lock_acquires,
